@@ -158,7 +158,7 @@ impl Property for StoreProp {
                         }
                         10..=11 => ops.push(Op::S(SOp::Peer { n: pick_doc(rng), t: 100 + ops.len() as u64, p: rng.below(4) as u8 })),
                         12 => ops.push(Op::S(SOp::SetPolicy { n: pick_doc(rng), pol: gen_pol(rng) })),
-                        13 => ops.push(Op::S(SOp::OpenRep { n: pick_doc(rng) })),
+                        13 => ops.push(Op::S(if rng.chance(1, 2) { SOp::OpenRep { n: pick_doc(rng) } } else { SOp::OpenInfo { n: pick_doc(rng) } })),
                         14 => ops.push(Op::S(SOp::CloseRep { n: pick_doc(rng) })),
                         15..=17 => {
                             let n = pick_doc(rng);
